@@ -263,13 +263,18 @@ def gen_dir_cases(rng, W, seeds, n):
     cases = []
     allbin = [b for v in seeds.bin.values() for b in v]
     for i in range(n):
-        stepname = rng.choice(["build", "build", "build", "a b", "é", "st*p", "[abc", "x/../y", "build.00000000"])
+        # step names are interpolated into a glob: names with metacharacters match files called differently
+        stepname, filebase = rng.choice([("build", "build")] * 4 + [("a b", "a b"), ("é", "é"), ("st*p", "stop"), ("st*p", "st.x.p"), ("[abc", "[abc"),
+                                        ("x/../y", "y"), ("build.00000000", "build.00000000"), ("[b][u][i][l][d]", "build"),
+                                        ("b?ild", "béild"), ("*", "anything"), ("bu*", "build.x.y")])
         layout = scen.mk_layout(W, ["ed4"], [scen.mk_step(stepname, rng.choice([0, 1, 2]), [W.kid("ed4")], [], [["ALLOW", "*"]], [])],
                                 [], None, "")
         files = {}
         for j in range(rng.choice([1, 2, 3])):
-            pfx = rng.choice([W.pfx("ed4"), "00000000", "????????", "ééé" + "é", "abcdefgh", "€€xx"])
-            fname = f"{stepname}.{pfx}.link"
+            # the key-id part of the file name is matched by ???????? (8 *characters*, not bytes)
+            pfx = rng.choice([W.pfx("ed4"), "00000000", "????????", "éééééééé", "abcdefgh", "€€€€€€€€", "0123456é", "é1234567", "😀😀😀😀😀😀😀😀",
+                              "ab", "abcdefghi", "........", "a.b.c.d."])
+            fname = f"{filebase}.{pfx}.link"
             if "/" in fname:
                 fname = fname.replace("/", "_")
             w = copy.deepcopy(rng.choice(seeds.json["metablock"]))
